@@ -181,12 +181,15 @@ def gen_world(rng, tier, stream):
     def observe(p_query=0.5):
         obs = []
         if rng.random() < p_query:
-            for _ in range(rng.randint(1, 2)):
+            for _ in range(rng.randint(1, 3)):
                 kind, params = gen_geom(rng, ["sphere", "box", "capsule", "cylinder"])
+                if rng.random() < 0.5:       # a big query collider: hits several, seldom all
+                    params = {k: ([x * 2.5 for x in v] if isinstance(v, list) else v * 2.5) for k, v in params.items()}
                 wl = [f for f in frames if rng.random() < 0.2] if rng.random() < 0.4 else []
                 if wl and rng.random() < 0.3:
                     wl.append("unknown")
-                obs.append(dict(op="query", kind=kind, params=params, pose=gen_pose(rng, 0.8), whitelist=wl))
+                obs.append(dict(op="query", kind=kind, params=params, pose=gen_pose(rng, rng.choice([0.2, 0.5, 0.8])),
+                                whitelist=wl))
         if rng.random() < 0.5:
             obs.append(dict(op="self"))
         if rng.random() < 0.75:
